@@ -32,7 +32,7 @@
    last ending one or two bytes (the line end) before the returned offset. *)
 From Sipsp Require Import Harness Framing Resume SafeMore SafeMsg Layout FLineConv TrimSpec SigCoherent LowerBound.
 From Sipsp Require Import Tables.
-From Sipsp Require Import CSeqNest NameAddrNest NameAddrTag NameAddrTrim UpperBound NestMsg.
+From Sipsp Require Import CSeqNest NameAddrNest NameAddrTag NameAddrTrim LeafTrim UpperBound NestMsg.
 
 Theorem C05_body_and_raw_message : forall m h e,
   pf_end (m_body (finished m h e)) = h + (e - h) /\
@@ -200,6 +200,31 @@ Proof. intros. reflexivity. Qed.
 Theorem C05_nameaddr_value_trimmed : forall h buf offs s o e s', fb_fed h buf offs s -> parse_nameaddr h buf offs s = Done o e s' ->
   e = EOk \/ e = EMoreValues -> trimmed buf (fb_v s').
 Proof. exact nameaddr_value_trimmed. Qed.
+(* ... and so are the values of Call-ID, Content-Length, Expires and CSeq (the Val of those headers) *)
+Theorem C05_callid_value_trimmed : forall buf offs s o s', ci_fed buf offs s -> parse_callid buf offs s = Done o EOk s' -> trimmed buf (ci_callid s').
+Proof. exact callid_value_trimmed. Qed.
+Theorem C05_uint_value_trimmed : forall buf offs s o s', ui_fed buf offs s ->
+  (parse_uint buf offs s = Done o EOk s' \/ parse_clen buf offs s = Done o EOk s') -> trimmed buf (ui_sval s').
+Proof. intros buf offs s o s' Hf [H|H]; [exact (uint_value_trimmed buf offs s o s' Hf H)|exact (clen_value_trimmed buf offs s o s' Hf H)]. Qed.
+Theorem C05_cseq_value_trimmed : forall buf offs s o s', cs_fedb buf offs s -> parse_cseq buf offs s = Done o EOk s' -> trimmed buf (cs_v s').
+Proof. exact cseq_value_trimmed. Qed.
+(* the schedules of these three: a fresh object, then calls that answered "more bytes", on buffers that agree on what was read *)
+Theorem C05_leaf_schedules_mean : forall buf' o,
+  (forall s', ci_fed buf' o s' <-> (s' = callid0 /\ o <= nnat (length buf')) \/
+     exists buf offs s, ci_fed buf offs s /\ parse_callid buf offs s = Done o EMore s' /\ firstn (N.to_nat o) buf' = firstn (N.to_nat o) buf /\ o <= nnat (length buf')) /\
+  (forall s', ui_fed buf' o s' <-> (s' = uintb0 /\ o <= nnat (length buf')) \/
+     exists buf offs s, ui_fed buf offs s /\ parse_uint buf offs s = Done o EMore s' /\ firstn (N.to_nat o) buf' = firstn (N.to_nat o) buf /\ o <= nnat (length buf')) /\
+  (forall s', cs_fedb buf' o s' <-> (s' = cseq0 /\ o <= nnat (length buf')) \/
+     exists buf offs s, cs_fedb buf offs s /\ parse_cseq buf offs s = Done o EMore s' /\ firstn (N.to_nat o) buf' = firstn (N.to_nat o) buf /\ o <= nnat (length buf')).
+Proof.
+  intros buf' o. repeat split.
+  - intros H. destruct H as [buf offs Ho|buf offs s o s' buf' H0 H1 H2 H3]; [left; auto|right; exists buf, offs, s; auto].
+  - intros [[-> Ho]|(buf & offs & s & H0 & H1 & H2 & H3)]; [constructor; exact Ho|econstructor; eassumption].
+  - intros H. destruct H as [buf offs Ho|buf offs s o s' buf' H0 H1 H2 H3]; [left; auto|right; exists buf, offs, s; auto].
+  - intros [[-> Ho]|(buf & offs & s & H0 & H1 & H2 & H3)]; [constructor; exact Ho|econstructor; eassumption].
+  - intros H. destruct H as [buf offs Ho|buf offs s o s' buf' H0 H1 H2 H3]; [left; auto|right; exists buf, offs, s; auto].
+  - intros [[-> Ho]|(buf & offs & s & H0 & H1 & H2 & H3)]; [constructor; exact Ho|econstructor; eassumption].
+Qed.
 Theorem C05_nameaddr_schedules_mean : forall h buf' o s', fb_fed h buf' o s' <->
   (s' = pfrom0 /\ o <= nnat (length buf')) \/
   exists buf offs s, fb_fed h buf offs s /\ parse_nameaddr h buf offs s = Done o EMore s' /\
@@ -231,6 +256,9 @@ Print Assumptions C05_cseq_fields_nest.
 Print Assumptions C05_nameaddr_fields_nest.
 Print Assumptions C05_nameaddr_tag_inside_params.
 Print Assumptions C05_nameaddr_value_trimmed.
+Print Assumptions C05_callid_value_trimmed.
+Print Assumptions C05_uint_value_trimmed.
+Print Assumptions C05_cseq_value_trimmed.
 Print Assumptions C05_message_subfields_nest.
 Print Assumptions C05_message_subfields_nest_fed.
 Print Assumptions C05_message_every_schedule.
